@@ -409,10 +409,9 @@ async def check_history(out, chain, io_name, expected):
         if scen in (1, 2, 3, 7, 8, 9, 10) and states[-1] == "Terminated":
             if "ClientShutdown" not in states or "ServerShutdown" not in states:
                 out.violation("cleanly finished tunnel lacks the per-direction shutdown states [%s]" % io_name, {"states": states, "scenario": SCENARIOS[scen]})
-            else:
-                first = "ClientShutdown" if scen in (1, 7, 8) else "ServerShutdown" if scen in (2, 9, 10) else None
-                if first and states.index(first) > states.index("ServerShutdown" if first == "ClientShutdown" else "ClientShutdown"):
-                    out.violation("shutdown states recorded in the wrong order [%s]" % io_name, {"states": states, "scenario": SCENARIOS[scen]})
+            # (the ORDER of the two shutdown states is not judged: they are recorded when the two copy tasks return, and a task
+            # that has already relayed its FIN may still be waiting for the next hop's acknowledgement - TLS close_notify, QUIC
+            # stream finish - while the other direction ends; the property asks that the connection be recorded as finished)
         out.count("history_records_checked")
 
 
